@@ -136,6 +136,7 @@ fn class_len(a: &Artefact, t: &Tables, layer: Layer, c: MClass) -> usize {
 		MClass::Trunc | MClass::Subst | MClass::Del | MClass::Ins | MClass::Transp | MClass::Utf8Char | MClass::CaseRun => {
 			byte_class_len(c, b.len(), text)
 		}
+		MClass::Bech32Len => bech32_spans(b).len() * BECH32_LENS.len(),
 		MClass::JsonNode => t
 			.json
 			.as_ref()
@@ -186,7 +187,7 @@ fn enumerate(
 	let mut ord = 0u64;
 	for i in it.lo..it.hi {
 		match it.class {
-			MClass::Trunc | MClass::Subst | MClass::Del | MClass::Ins | MClass::Transp | MClass::Utf8Char | MClass::CaseRun => {
+			MClass::Trunc | MClass::Subst | MClass::Del | MClass::Ins | MClass::Transp | MClass::Utf8Char | MClass::CaseRun | MClass::Bech32Len => {
 				let m = byte_class_get(it.class, b, text, i);
 				if let Some(x) = m.apply(b) {
 					if !f(ord, &|| format!("{}{}", lname, m.describe()), fin(x)) {
@@ -315,6 +316,7 @@ fn class_from_name(s: &str) -> MClass {
 		MClass::Transp,
 		MClass::Utf8Char,
 		MClass::CaseRun,
+		MClass::Bech32Len,
 		MClass::JsonNode,
 		MClass::BinField,
 		MClass::Frame,
@@ -483,6 +485,7 @@ fn build_items(c: &Corpus, tabs: &[Tables], thorough: bool) -> (Vec<Item>, Value
 		MClass::Ins,
 		MClass::Utf8Char,
 		MClass::CaseRun,
+		MClass::Bech32Len,
 	];
 	let push = |items: &mut Vec<Item>, art: usize, ep: Ep, layer: Layer, class: MClass, n: usize, chunk: usize| {
 		let mut lo = 0;
@@ -519,7 +522,7 @@ fn build_items(c: &Corpus, tabs: &[Tables], thorough: bool) -> (Vec<Item>, Value
 				// armor framing and JSON-node replacement only
 				if !thorough
 					&& (ep.is_rpc() || slow_ep)
-					&& !matches!(class, MClass::Trunc | MClass::JsonNode | MClass::Frame)
+					&& !matches!(class, MClass::Trunc | MClass::JsonNode | MClass::Frame | MClass::Bech32Len)
 				{
 					continue;
 				}
